@@ -165,6 +165,20 @@ func (e *Ev) evRegexMethod(x *ast.CallExpr, rv VRegex, name string) Val {
 		fx.trusted["regexp.MatchString(s) <=> dec(s) in L(pattern) (assumed; L computed from regexp/syntax of the real pattern, DESIGN 2.5)"] = true
 		return VBool{"(inlang_" + ln + " " + fx.seqOf(s) + ")"}
 	}
+	if name == "ReplaceAllString" {
+		s, ok := e.ev(x.Args[0]).(VStr)
+		rep, ok2 := e.ev(x.Args[1]).(VStr)
+		if !ok || !ok2 || rep.Lit == nil || *rep.Lit != "" {
+			e.unsupp(x, "ReplaceAllString is only modelled with the empty replacement")
+		}
+		fx.prog.registerCodeRegex("re_"+rv.Var, rv.Pattern)
+		fx.specUsed["rm_"+rv.Var] = true
+		fx.prog.declareRemoval(rv.Var)
+		r := fx.freshStr("removed")
+		fx.assume(e.st.pc, sEq(fx.seqOf(r), "(rm_"+rv.Var+" "+fx.seqOf(s)+")"))
+		fx.trusted["regexp.ReplaceAllString(s, \"\") with pattern "+rv.Var+": named rm_"+rv.Var+"(s); characterised by the 'removal' directive (bounded stand-in)"] = true
+		return r
+	}
 	if name == "FindStringSubmatch" {
 		s, ok := e.ev(x.Args[0]).(VStr)
 		if !ok {
